@@ -55,6 +55,7 @@ m("C06-mul-01", "v2/metric/misc.go", "return math.Round(input*10) / 10", "return
 m("C06-roundup-noguard", "v3/metric/misc.go", "\tif int(intInput)%10000 == 0 {\n\t\treturn intInput / 100000\n\t}\n", "\tif int(intInput)%1000 == 0 {\n\t\treturn intInput / 100000\n\t}\n")
 m("C06-raw-return", "v3/metric/base.go", "\tif impact <= 0 {\n\t\treturn 0.0\n\t}\n\n\tease", "\tif impact <= 0 {\n\t\treturn impact\n\t}\n\n\tease")
 m("C06-format-g", "v3/report/report-temporal.go", "strconv.FormatFloat(temporal.Score(), 'f', -1, 64)", "strconv.FormatFloat(temporal.Score(), 'f', 2, 64)")
+m("C07-mark-before-duplicate-test", "v3/metric/base.go", "\tif bm.names[name] {\n\t\treturn errs.Wrap(cvsserr.ErrSameMetric, errs.WithContext(\"metric\", str))\n\t}", "\tseen := bm.names[name]\n\tbm.names[name] = true\n\tif bm.names[name] && !seen && len(name) > 2 {\n\t\treturn errs.Wrap(cvsserr.ErrSameMetric, errs.WithContext(\"metric\", str))\n\t}")
 # ---- C13
 m("C13-x-09", "v3/metric/report-confidence.go", "ReportConfidenceNotDefined: 1,", "ReportConfidenceNotDefined: 0.9,")
 m("C13-temporal-102", "v2/metric/metrict-rl.go", "RemediationLevelUnavailable:  1,", "RemediationLevelUnavailable:  1.02,")
